@@ -286,6 +286,7 @@ func RunConverge(sc Scenario, slot int) (out *Outcome) {
 		return true
 	}
 	lastTips := make([]string, len(nodes))
+	var banSeen time.Time
 	for {
 		for i, n := range nodes {
 			if t := w.Name(n.CM.Tip().ID); t != lastTips[i] {
@@ -299,6 +300,17 @@ func RunConverge(sc Scenario, slot int) (out *Outcome) {
 			break
 		}
 		if time.Now().After(deadline) {
+			break
+		}
+		// a ban is permanent: once an honest peer has been banned the network only gets a short
+		// grace period (it may still converge over other links)
+		if banSeen.IsZero() {
+			for _, n := range nodes {
+				if n.PS.honestBans() > 0 {
+					banSeen = time.Now()
+				}
+			}
+		} else if time.Since(banSeen) > 8*time.Second {
 			break
 		}
 		if !sc.NoAnnounce && time.Since(lastAnn) >= annEvery {
